@@ -136,13 +136,19 @@ def interp(p):
     arr_args = [j for j, k in enumerate(e["args"]) if k.startswith(("arr:", "mask:"))]
     if arr_args and n >= 1 and p.get("mismatch") and not rhs_full:
         j = arr_args[p["mismatch"] % len(arr_args)]
-        keep = []
-        args = []
-        for jj, k in enumerate(e["args"]):
-            v, ka = build_arg(k, n + 1 if jj == j else n, a + jj + 1, b + 2 * jj)
-            args.append(v)
-            keep.append(ka)
-        try:
+        # wrong lengths: one more, one less, empty, a single element, twice as many (all of them for short arrays, one
+        # rotating choice above the dispatch threshold where building the operands dominates the cost)
+        wrong = [w for w in (n + 1, n - 1, 0, 1, 2 * n) if w != n and w >= 0]
+        wrong = sorted(set(wrong))
+        if n > 16:
+            wrong = [wrong[(p["mismatch"] + a) % len(wrong)]]
+        for wl in wrong:
+            keep = []
+            args = []
+            for jj, k in enumerate(e["args"]):
+                v, ka = build_arg(k, wl if jj == j else n, a + jj + 1, b + 2 * jj)
+                args.append(v)
+                keep.append(ka)
             if tag == "method":
                 subj, ka = build_array(what, n, a, b)
                 fn = getattr(subj, e["name"])
@@ -151,15 +157,19 @@ def interp(p):
             else:
                 fn = getattr(scalar_instance(what, a, b), e["name"])
             only_arrays = tag != "method" and len(arr_args) == 1
-            if not only_arrays:
-                try:
-                    fn(*args)
-                except Exception:
-                    labels.add("mismatch_raises")
-                else:
-                    raise Violation("mismatch/no-exception", "%s with argument %d of length %d (others %d) did not raise" % (where, j, n + 1, n))
-        except Violation:
-            raise
+            if only_arrays:
+                break
+            before = snapshot(subj) if tag == "method" else None
+            try:
+                fn(*args)
+            except Exception:
+                labels.add("mismatch_raises")
+                if wl == 0:
+                    labels.add("mismatch_empty_raises")
+            else:
+                raise Violation("mismatch/no-exception", "%s with argument %d of length %d (others %d) did not raise" % (where, j, wl, n))
+            if tag == "method" and snapshot(subj) != before:
+                raise Violation("mismatch/subject-modified", "%s with argument %d of length %d (others %d) raised but changed its subject" % (where, j, wl, n))
     if e.get("scalar_oracle") == "none":
         labels.add("no_scalar_form")
     labels.add(tag)
@@ -337,7 +347,7 @@ RACE_PASS = bool(os.environ.get("VP_RACE_PASS"))
 GROUPS = [] if RACE_PASS else [
     Group("catalogue_sweep", None, interp, 0, 0,
           "complete sweep: every one of the %d catalogued vectorised entry points (array methods/operators x argument-kind combinations array/scalar/masked, module functions, scalar-object methods taking arrays) x lengths {2, 201, 257} (thorough: {0,2,199,201,257,1000}) x generated schedules; one length per entry (thorough: two) runs with the subject and/or the array arguments laid out as member views of aggregate arrays (V3fArray.y, C3cArray.g, Box3fArray.max: stride 3 or 2), where other members of the parent's elements must stay untouched; non-trivial = length > 200, dispatched to the pool, >= 2 non-empty chunks executed out of order" % len(CAT),
-          required_labels=["dispatched", "concurrent", "scalar_oracle_exact", "mismatch_raises", "method", "func", "scalar", "inplace", "masked_subject", "masked_subject_unmasked_length_rhs", "scalar_fold_oracle", "strided_subject", "strided_argument"], items=sweep_items),
+          required_labels=["dispatched", "concurrent", "scalar_oracle_exact", "mismatch_raises", "method", "func", "scalar", "inplace", "masked_subject", "masked_subject_unmasked_length_rhs", "scalar_fold_oracle", "strided_subject", "strided_argument", "mismatch_empty_raises"], items=sweep_items),
     Group("schedules", PROG, interp, 2400, 40000,
           "random (entry, length in {0,1,2,199,200,201,202,257,1000}, data seeds, masked self, schedule: up to 8 chunks incl. empty ones, permutation, worker ids, serial/concurrent); non-trivial as above",
           required_labels=["dispatched"]),
